@@ -23,6 +23,11 @@ CLAIMED = {
     text='roundtrip, codec_roundtrip, crc_single_byte and payload_substitution_detected are proved for every well-formed member list; the writer model reproduces the real CacheWrite archives byte for byte; the reader model is compared with the real zip reader on every truncation point and substitutions at every byte of small entries, and the real CacheRead is monitored for returning different contents. Truncations and header-field substitutions are covered by that exhaustive search only (partial), which found F-C08-b.',
     note='Trusted: Lean kernel, Model/Entry.lean + EntryRead.lean (tied by h_entry), zstd as a parameter (dec (enc x) = x). Known findings F-C08-a (zip64 locator in a name), F-C08-b (name aliasing through a substituted central-directory name).',
     ref='DESIGN.md section 4 C08, Appendix A.7, B.4, B.21'),
+
+ 'C04': dict(technique='Lean 4 proof (state-machine invariant of the time-macro finder over all read splits; induction over the recorded include list for the manifest check, all option combinations and file-system evolutions) + differential correspondence on the real finder and on real files + stale-hit monitor',
+    text='finder_sound holds for every split of a file into non-empty reads; manifest_hit_sound_partial shows that a manifest hit implies unchanged contents of every recorded header for all option combinations (after the fix of F-C04-a) except headers with time-macro text under default handling (F-C04-b, kernel-checked witness). Both models are replayed against the real TimeMacroFinder / chunked Digest and the real PreprocessorCacheEntry on real files.',
+    note='Trusted: Lean kernel, Model/TimeMacro.lean, Model/Manifest.lean (tied by h_c04), kernel ctime monotonicity (theorem hypothesis). Not yet modelled: the include recorder and line-marker scanner (C04 second tier).',
+    ref='DESIGN.md section 4 C04, Appendix A.1, B.1, B.11'),
 }
 NA_REASON = 'not yet wired into ./check in this round (model and theorems exist under lean/; see DESIGN.md section 0.1)'
 def hooks():
